@@ -60,6 +60,11 @@ def explore_template(t: Template, tier: str, seed: int):
     twin_seen = False
     for p in paths:
         if p.kind == "gap":
+            from symx import PathAbort as _PA
+
+            if isinstance(p.value, _PA):
+                res["infeasible_paths"] = res.get("infeasible_paths", 0) + 1  # the path's own constraints are unsatisfiable: not a path
+                continue
             res["gaps"][str(p.value)[:100]] += 1
             # A path that leaves the environment model is not covered by the solver claim.  It is not ignored either: the
             # solver is asked for several diverse inputs that reach the point where the model ends, and the same template is
